@@ -298,9 +298,9 @@ theorem pickMin_mem (c : Cands) (l : List Int) (h : l ≠ []) : pickMin c l ∈ 
     exact foldl_pick_mem (fun x best => properSubset (smallest (c.get x)) (smallest (c.get best))) rest u
 
 /-- what the theorems need of the rule choosing the next node -/
-def PickOK (pick : Cands → List Int → Int) : Prop := ∀ c l, l ≠ [] → pick c l ∈ l
+def PickOK (pick : Map → Cands → List Int → Int) : Prop := ∀ m c l, l ≠ [] → pick m c l ∈ l
 
-theorem pickMin_ok : PickOK pickMin := pickMin_mem
+theorem pickMin_ok : PickOK (fun _ => pickMin) := fun _ => pickMin_mem
 
 /-! ### soundness of `_map_nodes` -/
 
@@ -389,7 +389,7 @@ theorem sInv_step {g sg : Graph} {C : Constraints} {cands : Cands} {mapping : Ma
 /-- **Soundness of `_map_nodes`**: whatever the candidate sets that satisfy the invariant, the
 constraints and the rule for the next node, every yielded mapping extends the given one, maps
 exactly `to_be_mapped`, each node once, and every pair of it is acceptable against the earlier pairs. -/
-theorem mapNodes_sound {pick : Cands → List Int → Int} (hpick : PickOK pick) (g sg : Graph) (C : Constraints)
+theorem mapNodes_sound {pick : Map → Cands → List Int → Int} (hpick : PickOK pick) (g sg : Graph) (C : Constraints)
     (tbm : List Int) (fuel : Nat) (sgn : Int) (cands : Cands) (mapping : Map)
     (hinv : SInv g sg C cands mapping tbm) (hok : MapOK g sg C mapping)
     (hsgn : sgn ∉ mapping.map Prod.fst) (hnd : (mapping.map Prod.fst).Nodup) :
@@ -431,7 +431,7 @@ theorem mapNodes_sound {pick : Cands → List Int → Int} (hpick : PickOK pick)
         · rename_i hleft
           have hne : (tbm.filter fun u => !(((sgn, gn) :: mapping).map Prod.fst).contains u) ≠ [] := by
             intro e; apply hleft; rw [e]; rfl
-          have hp := hpick (List.foldl (addOptions g sg C sgn gn) (cands.set sgn [intersect (cands.get sgn)])
+          have hp := hpick ((sgn, gn) :: mapping) (List.foldl (addOptions g sg C sgn gn) (cands.set sgn [intersect (cands.get sgn)])
             (tbm.filter fun u => !(((sgn, gn) :: mapping).map Prod.fst).contains u)) _ hne
           have hp2 := not_mem_of_mem_filter_not_contains hp
           obtain ⟨h1, h2, ⟨rest, h3⟩, h4⟩ := ih _ _ _ (sInv_step hinv) hok' hp2 hnd' m hm
@@ -611,7 +611,7 @@ theorem cInv_step {g sg : Graph} {C : Constraints} {cands : Cands} {mapping : Ma
 
 /-- **Completeness of `_map_nodes`**: every solution that extends the current mapping and whose
 values lie in all candidate sets is yielded. -/
-theorem mapNodes_complete {pick : Cands → List Int → Int} (hpick : PickOK pick) (g sg : Graph) (C : Constraints)
+theorem mapNodes_complete {pick : Map → Cands → List Int → Int} (hpick : PickOK pick) (g sg : Graph) (C : Constraints)
     (tbm : List Int) (F : Int → Int) (hsol : Sol g sg C tbm F)
     (fuel : Nat) (sgn : Int) (cands : Cands) (mapping : Map)
     (hext : ∀ x ∈ mapping, F x.1 = x.2) (hdom : ∀ x ∈ mapping, x.1 ∈ tbm)
@@ -689,7 +689,7 @@ theorem mapNodes_complete {pick : Cands → List Int → Int} (hpick : PickOK pi
       · rename_i hleft
         have hne : (tbm.filter fun u => !(((sgn, F sgn) :: mapping).map Prod.fst).contains u) ≠ [] := by
           intro e; apply hleft; rw [e]; rfl
-        have hp := hpick (List.foldl (addOptions g sg C sgn (F sgn)) (cands.set sgn [intersect (cands.get sgn)])
+        have hp := hpick ((sgn, F sgn) :: mapping) (List.foldl (addOptions g sg C sgn (F sgn)) (cands.set sgn [intersect (cands.get sgn)])
           (tbm.filter fun u => !(((sgn, F sgn) :: mapping).map Prod.fst).contains u)) _ hne
         exact ih _ _ _ hext' hdom' (cInv_step hsol hsgn hinv) (List.mem_filter.1 hp).1
           (not_mem_of_mem_filter_not_contains hp) hnd' (by simp only [List.length_cons]; omega)
@@ -720,7 +720,7 @@ theorem nInv_step {g sg : Graph} (hg : g.keys.Nodup) {C : Constraints} {cands : 
   · exact consOptions_nodup hg hs
 
 /-- the yielded mappings extend the given one and list every node once (no invariant needed) -/
-theorem mapNodes_struct {pick : Cands → List Int → Int} (hpick : PickOK pick) (g sg : Graph) (C : Constraints)
+theorem mapNodes_struct {pick : Map → Cands → List Int → Int} (hpick : PickOK pick) (g sg : Graph) (C : Constraints)
     (tbm : List Int) (fuel : Nat) (sgn : Int) (cands : Cands) (mapping : Map)
     (hsgn : sgn ∉ mapping.map Prod.fst) (hnd : (mapping.map Prod.fst).Nodup) :
     ∀ m ∈ mapNodes pick g sg C fuel sgn cands mapping tbm,
@@ -744,7 +744,7 @@ theorem mapNodes_struct {pick : Cands → List Int → Int} (hpick : PickOK pick
         · rename_i hleft
           have hne : (tbm.filter fun u => !(((sgn, gn) :: mapping).map Prod.fst).contains u) ≠ [] := by
             intro e; apply hleft; rw [e]; rfl
-          have hp := hpick (List.foldl (addOptions g sg C sgn gn) (cands.set sgn [intersect (cands.get sgn)])
+          have hp := hpick ((sgn, gn) :: mapping) (List.foldl (addOptions g sg C sgn gn) (cands.set sgn [intersect (cands.get sgn)])
             (tbm.filter fun u => !(((sgn, gn) :: mapping).map Prod.fst).contains u)) _ hne
           obtain ⟨h1, rest, h2⟩ := ih _ _ _ (not_mem_of_mem_filter_not_contains hp) hnd' m hm
           exact ⟨h1, rest ++ [(sgn, gn)], by rw [h2, List.append_assoc]; rfl⟩
@@ -752,7 +752,7 @@ theorem mapNodes_struct {pick : Cands → List Int → Int} (hpick : PickOK pick
 /-- two yielded mappings differ at some node of `to_be_mapped` -/
 def Differ (tbm : List Int) (m m' : Map) : Prop := ∃ u ∈ tbm, Map.toFun m u ≠ Map.toFun m' u
 
-theorem mapNodes_distinct {pick : Cands → List Int → Int} (hpick : PickOK pick) (g sg : Graph) (hg : g.keys.Nodup)
+theorem mapNodes_distinct {pick : Map → Cands → List Int → Int} (hpick : PickOK pick) (g sg : Graph) (hg : g.keys.Nodup)
     (C : Constraints) (tbm : List Int) (fuel : Nat) (sgn : Int) (cands : Cands) (mapping : Map)
     (hn : NInv cands) (hsgn : sgn ∉ mapping.map Prod.fst) (hnd : (mapping.map Prod.fst).Nodup) :
     (mapNodes pick g sg C fuel sgn cands mapping tbm).Pairwise (Differ tbm) := by
@@ -772,7 +772,7 @@ theorem mapNodes_distinct {pick : Cands → List Int → Int} (hpick : PickOK pi
           · rename_i hleft
             have hne : (tbm.filter fun u => !(((sgn, gn) :: mapping).map Prod.fst).contains u) ≠ [] := by
               intro e; apply hleft; rw [e]; rfl
-            have hp := hpick (List.foldl (addOptions g sg C sgn gn) (cands.set sgn [intersect (cands.get sgn)])
+            have hp := hpick ((sgn, gn) :: mapping) (List.foldl (addOptions g sg C sgn gn) (cands.set sgn [intersect (cands.get sgn)])
               (tbm.filter fun u => !(((sgn, gn) :: mapping).map Prod.fst).contains u)) _ hne
             exact ih _ _ _ (nInv_step hg hn sgn gn _) (not_mem_of_mem_filter_not_contains hp)
               (by simp only [List.map_cons, List.nodup_cons]; exact ⟨hsgn, hnd⟩)
@@ -785,7 +785,7 @@ theorem mapNodes_distinct {pick : Cands → List Int → Int} (hpick : PickOK pi
             else if sameSet tbm (((sgn, gn) :: mapping).map Prod.fst) = true then [(sgn, gn) :: mapping]
             else if (tbm.filter fun u => !(((sgn, gn) :: mapping).map Prod.fst).contains u).isEmpty = true then []
             else mapNodes pick g sg C fuel
-              (pick (List.foldl (addOptions g sg C sgn gn) (cands.set sgn [intersect (cands.get sgn)])
+              (pick ((sgn, gn) :: mapping) (List.foldl (addOptions g sg C sgn gn) (cands.set sgn [intersect (cands.get sgn)])
                 (tbm.filter fun u => !(((sgn, gn) :: mapping).map Prod.fst).contains u))
                 (tbm.filter fun u => !(((sgn, gn) :: mapping).map Prod.fst).contains u))
               (List.foldl (addOptions g sg C sgn gn) (cands.set sgn [intersect (cands.get sgn)])
@@ -811,7 +811,7 @@ theorem mapNodes_distinct {pick : Cands → List Int → Int} (hpick : PickOK pi
             · rename_i hleft
               have hne : (tbm.filter fun u => !(((sgn, gn) :: mapping).map Prod.fst).contains u) ≠ [] := by
                 intro e; apply hleft; rw [e]; rfl
-              have hp := hpick (List.foldl (addOptions g sg C sgn gn) (cands.set sgn [intersect (cands.get sgn)])
+              have hp := hpick ((sgn, gn) :: mapping) (List.foldl (addOptions g sg C sgn gn) (cands.set sgn [intersect (cands.get sgn)])
                 (tbm.filter fun u => !(((sgn, gn) :: mapping).map Prod.fst).contains u)) _ hne
               obtain ⟨h1, rest, h2⟩ := mapNodes_struct hpick g sg C tbm fuel _ _ _
                 (not_mem_of_mem_filter_not_contains hp) hnd' x hx
